@@ -1619,6 +1619,26 @@ class Gen:
                 ed.replace(X["e"], n["e"], ")", ("rule", "R40"))
                 n["_handled"] = True
                 self.fired("R40")
+            elif n["k"] == "MethodCall" and n["a"]["method"] == "collect" and kid(n, "receiver")["k"] == "MethodCall" \
+                    and kid(n, "receiver")["a"]["method"] == "chars" and not kids(kid(n, "receiver"), "arg") \
+                    and norm(n["a"].get("turbofish") or "") == "::<Vec<_>>":
+                # R40c: `S.chars().collect::<Vec<_>>()` -> __chars_vec(S)  (r@ == S@)
+                X = kid(kid(n, "receiver"), "receiver")
+                ed.replace(n["s"], X["s"], "__chars_vec(", ("rule", "R40c"))
+                ed.replace(X["e"], n["e"], ")", ("rule", "R40c"))
+                n["_handled"] = True
+                self.fired("R40c")
+            elif n["k"] == "MethodCall" and n["a"]["method"] == "contains" and kid(n, "receiver")["k"] == "Array" and len(kids(n, "arg")) == 1 \
+                    and kids(n, "arg")[0]["k"] == "Reference" and kids(kid(n, "receiver"), None) \
+                    and all(c["k"] == "Lit" and re.match(r"^('([^'\\]|\\.)'|\d+)$", c["a"]["lit"]) for c in kids(kid(n, "receiver"), None)):
+                # R49: `[l1, l2, ..].contains(&E)` over char / integer literals, E a place expression (evaluated once per comparison,
+                # no call inside) -> (E == l1 || E == l2 || ..)
+                E = kids(kids(n, "arg")[0], None)[0]
+                if any(x["k"] in ("Call", "MethodCall", "Macro") for x in walk(E)):
+                    raise Inconclusive(f"unsupported construct: [..].contains(&<call>) at {src.rel}:{src.line_of(n['s'])}")
+                et = src.text(E)
+                ed.replace(n["s"], n["e"], "(" + " || ".join(f"{et} == {c['a']['lit']}" for c in kids(kid(n, "receiver"), None)) + ")", ("rule", "R49"))
+                self.fired("R49")
             elif n["k"] == "MethodCall" and n["a"]["method"] == "repeat" and kid(n, "receiver")["k"] == "Lit" \
                     and kid(n, "receiver")["a"]["lit"] == '" "' and len(kids(n, "arg")) == 1:
                 A = kids(n, "arg")[0]
